@@ -483,7 +483,7 @@ def _spec(draw):
         n_min = int(math.ceil((mech['n_par'] + 2.0) / n_out))
     s['times'] = _draw_times(draw, n_min)
     reg = mech.get('regimen') if pk else None
-    if reg and reg['period'] and gen.chance(draw, 0.3):
+    if reg and reg['period'] and gen.chance(draw, 0.6):
         # the last measurement is taken exactly at a (later) dose time
         k = draw(st.integers(0, 12))
         if reg['num']:
